@@ -388,10 +388,10 @@ def _match(run, P):
     run.ob("C17.prematch", f, lp, ok,
            construct="equation (Variable(name), expr) for every entry",
            why="binding direction")
-    ok = has("free_variable_names = get_variables(template, include_function_symbols=True)", f.node) \
+    ok = has(f"free_variable_names = get_variables({f.arg(0)}, include_function_symbols=True)", f.node) \
         and has("free_variable_names -= set(bound_variable_names)", f.node)
     dflt = [n for n in ast.walk(f.node) if isinstance(n, ast.If) and any(
-        has("free_variable_names = get_variables(template, include_function_symbols=True)", s_)
+        has(f"free_variable_names = get_variables({f.arg(0)}, include_function_symbols=True)", s_)
         for s_ in n.body)]
     only_none = bool(dflt) and all(norm(n.test) == "free_variable_names is None" for n in dflt)
     rebinds = [n for n in ast.walk(f.node) if isinstance(n, (ast.Assign, ast.AugAssign))
